@@ -216,7 +216,7 @@ func toCtyMap(val reflect.Value, ety cty.Type, path cty.Path) (cty.Value, error)
 			path[len(path)-1] = cty.IndexStep{
 				Key: cty.StringVal(k),
 			}
-			vals[k], err = toCtyValue(val.MapIndex(reflect.ValueOf(k)), ety, path)
+			vals[k], err = toCtyValue(val.MapIndex(kv), ety, path)
 			if err != nil {
 				return cty.NilVal, err
 			}
@@ -334,7 +334,7 @@ func toCtyObject(val reflect.Value, attrTypes map[string]cty.Type, path cty.Path
 				continue
 			}
 
-			vals[k], err = toCtyValue(val.MapIndex(reflect.ValueOf(k)), at, path)
+			vals[k], err = toCtyValue(val.MapIndex(reflect.ValueOf(k).Convert(keyType)), at, path)
 			if err != nil {
 				return cty.NilVal, err
 			}
